@@ -130,3 +130,27 @@ def _reach(B, start, targets, stop=None):
         seen.add(x)
         st.extend(B.succ[x])
     return False
+
+
+def check_gate_initial(ctx, F, rule="E-WHO.gate.init"):
+    """A freshly created manager is not prepared for node removal: the struct literals that create the two managers
+    initialise `reorder_gc_prepared` with `false` (node removal is unlocked only inside gc / reorder)."""
+    from lib import hirutil as H
+    n = 0
+    for crate in ("oxidd_manager_index", "oxidd_manager_pointer"):
+        vals = []
+        for fid, h in F.hir.items():
+            if fid.split("::")[0] != crate:
+                continue
+            for x in H.walk(h["body"]):
+                if x.get("k") == "struct":
+                    f = dict(x["f"])
+                    if "reorder_gc_prepared" in f:
+                        vals.append((fid, f["reorder_gc_prepared"]))
+        n += len(vals)
+        ok = len(vals) >= 1 and all(v.get("k") == "lit" and str(v.get("v")) == "false" for _, v in vals)
+        ctx.ob(rule, "%s:%s" % (rule, crate), ok,
+               "%s: %s" % (crate, "the manager starts with reorder_gc_prepared = false" if ok else
+                           "the manager is created with reorder_gc_prepared != false (or the initialisation was not found): nodes can be "
+                           "removed from the unique tables outside gc / reorder"))
+    return n
